@@ -241,13 +241,13 @@ def fmm_constants(dim, height, pool, periodic=False, mode="single", maxper=1, ma
                 Histories="{" + ", ".join('"%s"' % h for h in hists) + "}", AboveLevelsP1=set(a + 1 for a in aboves), EmitJson=True, Shard=0, NbShards=1)
 
 
-def tlc_sharded(module, consts, invs, props, nshards, workers_each, timeout, tag):
+def tlc_sharded(module, consts, invs, props, nshards, workers_each, timeout, tag, spec="Spec", simulate=None):
     """Run nshards TLC processes on disjoint shards of the scenario space (constants Shard / NbShards) and merge the results.
     TLC computes initial states in one thread, so scenario-per-initial-state specifications scale by processes, not workers."""
     def one(i):
         c = dict(consts)
         c["Shard"], c["NbShards"] = i, nshards
-        return run_tlc(module, cfg("Spec", c, invs, props), workers=workers_each, timeout=timeout, tag="%s-s%d" % (tag, i), heap="2500m" if nshards > 8 else "3g")
+        return run_tlc(module, cfg(spec, c, invs, props), workers=workers_each, timeout=timeout, tag="%s-s%d" % (tag, i), heap="2500m" if nshards > 8 else "3g", simulate=simulate)
     if nshards == 1:
         return one(0)
     with ThreadPoolExecutor(max_workers=nshards) as ex:
@@ -841,9 +841,88 @@ def omp_configs(tier):
             ("omp-tsm-3d-h3", fmm_constants(3, 3, POOL_3D_H3[:4], mode="tsm", bss=(1, 2)))]
 
 
+TASKEXEC_INVS = ["NoAssertFail", "GeometricConsistency", "NothingAboveStopLevel", "MultipoleDef", "LocalDef", "RhsDef", "Completes", "ExactlyOnce",
+                 "CountersEqualElementary", "ElementarySetIndependentOfGrouping", "DeclaredCoversActual", "ConflictsOrdered", "EmitGraph"]
+
+
+def taskexec_stage(run):
+    """Design level of C03 (spec/TaskExec.tla): the submission program of the task executors - one task per wrapper call with the declared read /
+    commutative-write accesses - under EVERY order a conforming runtime may choose, for every tree of small pools: each task must be an enabled
+    batch when it runs and every schedule must end in the closed-form state.  The model graph of every scenario is then compared with the graph
+    RECORDED from the three real executors (same tasks in the same submission order with the same declared handles): that equality is what
+    carries the model-level result over to the code; it is reported in the evidence, the verdicts on the code come from Covered / SameAsSequential."""
+    q = run.tier == "quick"
+    cfgs = [("tx-1d-h4", fmm_constants(1, 4, [0, 1, 5] if q else [0, 1, 2, 5], bss=(1, 2)), False),
+            ("tx-2d-h3", fmm_constants(2, 3, [0, 5, 15], bss=(1, 2)), False),
+            ("tx-tsm-1d-h4", fmm_constants(1, 4, [1, 2, 6], mode="tsm", maxparts=2, bss=(1, 2)), False),
+            ("tx-1d-h4-live", fmm_constants(1, 4, [0, 5], bss=(1,)), True)]
+    if not q:
+        cfgs += [("tx-1d-h5", fmm_constants(1, 5, [0, 7, 8], bss=(1, 2, 20), hists=("full", "stages3")), False),
+                 ("tx-3d-h3", fmm_constants(3, 3, [0, 9, 63], bss=(1, 2)), False),
+                 ("tx-1d-h4-live3", fmm_constants(1, 4, [0, 1, 5], bss=(1, 2)), True)]
+    def one(c):
+        name, consts, live = c
+        consts = dict(consts, EmitJson=True)
+        res = tlc_sharded("TaskExec", consts, TASKEXEC_INVS, ["Terminates"] if live else [], 7, 1, 1500 if q else 6000, "C03-" + name, spec="TFairSpec" if live else "TSpec")
+        run.add_tlc("C03-" + name, res, note="TaskExec.tla: every schedule of the modelled submission program, Dim=%s Height=%s Mode=%s pool=%d bs=%s%s" % (
+            consts["Dim"], consts["Height"], consts["Mode"], len(consts["Pool"]), sorted(consts["BlockSizes"]), ", liveness (Terminates under weak fairness)" if live else ""))
+        if res.violated or not res.ok:
+            run.machinery_errors.append("TLC: %s of spec/TaskExec.tla in configuration %s (log %s): the specification of the submission program is inconsistent" % (
+                res.violated or res.error or "no verdict", name, res.logpath))
+        return name, consts, [r for r in res.lines if r.get("k") == "mgraph"]
+    with ThreadPoolExecutor(max_workers=2) as ex:
+        models = list(ex.map(one, cfgs))
+    stats = {"scenarios": 0, "graphs_compared": 0, "graphs_equal": 0, "first_difference": None}
+    def mkey(g):
+        return "d%dh%d%s%s-S[%s]%s-bs%d-og%d-st%d-hi%d" % (g["dim"], g["height"], "p" if g["periodic"] else "", "-tsm" if g["mode"] == "tsm" else "", ",".join(map(str, g["sparts"])),
+                                                          ("-T[%s]" % ",".join(map(str, g["tparts"]))) if g["mode"] == "tsm" else "", g["bs"], int(g["ogpp"]), g["stop"], HIST[g["hist"]])
+    def hname(h, tsm):
+        if h[0] in ("pd", "pr"):
+            return ("" if h[1] == "x" else h[1]) + h[0] + "." + str(h[2] - 1)
+        tree = "" if not tsm else ("s" if h[0] == "mp" else "t")
+        return tree + h[0] + "." + str(h[1]) + "." + str(h[2] - 1)
+    for name, consts, mg in models:
+        if name.endswith("-live"):
+            continue
+        bykey = {}
+        for g in mg:
+            bykey.setdefault(mkey(g), []).append(g)
+        stats["scenarios"] += len(bykey)
+        mconsts = dict(consts)
+        for runtime in ("omp", "specx", "starpu"):
+            pairs, mism, gall = omp_campaign(run, "C03-%s-%s" % (name, runtime), mconsts, "quick", runtime=runtime, graphs=100000, max_graph_tasks=100000)
+            report_mismatches(run, "C03", "C03-%s-%s" % (name, runtime), pairs, [(k, re.sub(r"-(immediate|deferred|tlc)-.*$", "", key), "%s [%s]" % (t, key)) for k, key, t in mism], C03_KINDS)
+            if not gall:
+                continue
+            cur, tasks = None, []
+            graphs = {}
+            for line in open(gall):
+                r = json.loads(line)
+                if r["e"] == "Graph":
+                    cur = re.sub(r"-v\d+$", "", r["key"]); graphs.setdefault(cur, [])
+                elif r["e"] == "Task" and cur is not None and len(graphs[cur]) < r["t"]:
+                    graphs[cur].append(r)
+            for key, rec in graphs.items():
+                if key not in bykey:
+                    continue
+                g = bykey[key][0]; tsm = g["mode"] == "tsm"
+                stats["graphs_compared"] += 1
+                model = [(sorted(hname(h, tsm) for h in t["ins"]), sorted(hname(h, tsm) for h in t["muts"])) for t in g["tasks"]]
+                code = [(sorted(d[0] for d in t["deps"] if d[1] == "in" and re.match(r"^[st]?(mp|lo|pd|pr)\.", d[0])),
+                         sorted(d[0] for d in t["deps"] if d[1] != "in" and re.match(r"^[st]?(mp|lo|pd|pr)\.", d[0]))) for t in rec]
+                if model == code:
+                    stats["graphs_equal"] += 1
+                elif stats["first_difference"] is None:
+                    stats["first_difference"] = {"runtime": runtime, "key": key, "model": model[:40], "recorded": code[:40]}
+            os.remove(gall)
+    run.coverage["taskexec_model_vs_recorded_graphs"] = stats
+    log("TaskExec: model graph equals the recorded graph for %d of %d compared (scenario, runtime) pairs" % (stats["graphs_equal"], stats["graphs_compared"]))
+
+
 @check("C03", "model_checking")
 def check_c03(run):
     q = run.tier == "quick"
+    taskexec_stage(run)
     shared = [("1d-h5", fmm_constants(1, 5, POOL_1D_H5[:7], bss=(1, 2, 3, 20))), ("3d-h4", fmm_constants(3, 4, POOL_3D_H4[:5], bss=(1, 2, 20))),
               ("tsm-1d-h5", fmm_constants(1, 5, POOL_1D_H5[:4], mode="tsm", bss=(1, 2, 20))),
               ("1d-h4-stops", fmm_constants(1, 4, [0, 1, 2, 5, 6, 7], bss=(1, 2, 20), stops=(0, 1, 3, 4)))]
